@@ -18,17 +18,17 @@ from checks import c11
 
 REPO = os.environ.get("FORSYS_REPO", "/repo")
 PID = "C09"
-RULE = ("states = meshes reachable from a parser output by histories over {generate_mesh x8, Frame, hold, release, gc}; de-duplicated on the full mesh snapshot; "
+RULE = ("states = meshes reachable from a parser output by histories over {generate_mesh x8, Frame, hold, release, gc, remove_cell x2}; de-duplicated on the full mesh snapshot; "
         "non-trivial = history contains an edit; classes = (source, vertices, edges, cells, history signature)")
 BOUND = {"quick": "depth 3 from 17 initial meshes (WKT polygons with two nearly coincident corners, direct k=0/k=2, SE dump, WKT, tessellation, sub-tissue with hole, lens, rasterised skeletons: minimal, non-minimal, with reduce_amount, with a detached ring / pair of cells) + depth 2 from every connected sub-tissue of a 7-cell base (k=0 and k=2) + depth 1 from the skeleton raster with ONE staircase corner (an L-shaped step on an interface), for every one of its 220 possible positions",
          "thorough": "depth 4 from 8 initial meshes, depth 2 from every sub-tissue of an 11-cell base, shipped dumps and skeleton depth 2; depth 2 from every single-staircase-corner variant of two rasters"}
 ASSUMPTIONS = ["Vertex.own_big_edges is not constrained by the statement (reported as a diagnostic only)",
                "a call that raises leaves no state; SegmentationArtifactException (and the ValueError that chained contractions produce) is a refusal, not a verdict",
                "holding a shallow copy of the dictionaries models a user who keeps the previous mesh alive (so that __del__ of replaced objects runs late)"]
-REQUIRED_TAGS = {"all": ["resampled", "framed", "contracted", "source:direct", "source:se", "source:wkt", "source:tess", "source:raster", "held", "artefact_triangle", "staircase_corner", "detached_piece", "nearly_coincident_corners"]}
+REQUIRED_TAGS = {"all": ["resampled", "framed", "contracted", "source:direct", "source:se", "source:wkt", "source:tess", "source:raster", "held", "artefact_triangle", "staircase_corner", "detached_piece", "nearly_coincident_corners", "cell_removed"]}
 
 GM = [[ne, rse] for ne in (2, 3, 6, 12) for rse in (True, False)]
-OPS = [["gm"] + g for g in GM] + [["frame"], ["hold"], ["release"], ["gc"]]
+OPS = [["gm"] + g for g in GM] + [["frame"], ["hold"], ["release"], ["gc"], ["rmcell", 0], ["rmcell", -1]]
 
 
 def staircase_corners(img):
@@ -56,6 +56,20 @@ def n_staircase_corners(spec):
     nx, ny, jit, pat, scale = spec
     img, _ = RR.raster(T.hex_sites(nx, ny, jit / 100.0, pat), scale, minimal_junctions=True)
     return len(staircase_corners(img))
+
+
+def held_reference_finding(ops):
+    """the destructor-based bookkeeping fails when an editing call drops objects that the caller still references: F25 if the
+    first such call after a 'hold' is generate_mesh, F32 if it is ForSys.remove_cell; None if no editing call follows a hold"""
+    seen_hold = False
+    for o in ops:
+        if o[0] == "hold":
+            seen_hold = True
+        elif seen_hold and o[0] == "gm":
+            return "F25"
+        elif seen_hold and o[0] == "rmcell":
+            return "F32"
+    return None
 
 
 def initial_mesh(src):
@@ -241,6 +255,21 @@ class MeshHistories:
                     elif op[0] == "frame":
                         frame = ff.Frame(0, v, e, c, time=0.0)
                         tags.append("framed")
+                    elif op[0] == "rmcell":
+                        # the library's own editing function: ForSys.remove_cell deletes a cell (with the vertices and edges that
+                        # only it owns) and rebuilds the Frame; op[1] = which cell, by position in id order
+                        if len(c) < 3:
+                            return {"viol": [], "tags": tags + ["too_few_cells_to_remove"], "cls": "norm", "outdom": True}
+                        import forsys as fs_
+                        fr_ = ff.Frame(0, v, e, c, time=0.0)
+                        s_ = fs_.ForSys({0: fr_})
+                        fr_ = None
+                        cid_ = sorted(c)[op[1] % len(c)]
+                        s_.remove_cell(0, cid_)
+                        frame = s_.frames[0]
+                        v, e, c = frame.vertices, frame.edges, frame.cells
+                        s_ = None
+                        tags.append("cell_removed")
                     elif op[0] == "hold":
                         held.append((dict(v), dict(e), dict(c), frame))
                         tags.append("held")
@@ -259,15 +288,9 @@ class MeshHistories:
                     return {"viol": [], "tags": tags + ["refused_chained_contraction"], "cls": "refused", "outdom": True}
                 if tri and any(o[0] == "gm" for o in d["ops"][:n + 1]):
                     return {"viol": [], "known": [{"id": "F13", "exc": fsutil.exc_str(ex), "ops": d["ops"][:n + 1]}], "tags": tags, "cls": "exc-after-F13", "outdom": True}
-                seen_hold = False
-                tainted = False
-                for o in d["ops"][:n]:
-                    if o[0] == "hold":
-                        seen_hold = True
-                    if o[0] == "gm" and seen_hold:
-                        tainted = True
-                if tainted:
-                    return {"viol": [], "known": [{"id": "F25", "exc": fsutil.exc_str(ex), "ops": d["ops"][:n + 1]}], "tags": tags, "cls": "exc-after-F25", "outdom": True}
+                fid = held_reference_finding(d["ops"][:n + 1])
+                if fid:
+                    return {"viol": [], "known": [{"id": fid, "exc": fsutil.exc_str(ex), "ops": d["ops"][:n + 1]}], "tags": tags, "cls": "exc-after-" + fid, "outdom": True}
                 return {"viol": [{"what": "%s raised" % op[0], "detail": {"exc": fsutil.exc_str(ex), "ops": d["ops"][:n + 1]}}], "tags": tags, "cls": "exc", "outdom": True}
         snap = fsutil.snapshot(v, e, c)
         prob = RM.check_mesh(v, e, c)
@@ -279,12 +302,12 @@ class MeshHistories:
         if prob and tri and any(op[0] == "gm" for op in d["ops"]) and all("not joined by a mesh edge" in x for x in prob):
             known.append({"id": "F13", "problems": prob[:2], "ops": d["ops"]})
         elif prob:
-            if held and any(op[0] == "gm" for op in d["ops"]):
-                # the previous SmallEdge/Cell objects are still alive (the user kept them): their __del__ has not run, so the
-                # vertices still list the old edge ids next to the new ones (or lose new ids when the old objects die later)
-                known.append({"id": "F25", "problems": prob[:2], "ops": d["ops"]})
-            elif any(op[0] == "release" for op in d["ops"]) and any(op[0] == "hold" for op in d["ops"]) and any(op[0] == "gm" for op in d["ops"]):
-                known.append({"id": "F25", "problems": prob[:2], "ops": d["ops"]})
+            fid = held_reference_finding(d["ops"])
+            if fid:
+                # the previous SmallEdge/Cell objects were still alive (the user kept them) when an editing call dropped them: their
+                # __del__ had not run, so the vertices still list the old ids next to the new ones (or lose new ids when the old
+                # objects die later)
+                known.append({"id": fid, "problems": prob[:2], "ops": d["ops"]})
             else:
                 viol.append({"what": "mesh is inconsistent", "detail": {"problems": prob[:4], "ops": d["ops"], "source": src}})
         stale = sum(1 for vv in v.values() for b in vv.own_big_edges if frame is None or b not in frame.big_edges)
@@ -312,7 +335,7 @@ def build(tier, seed):
            ["raster", [5, 4, 15, 0, 40], True, "reduce"], ["raster", [4, 4, 0, 0, 30], True, "reduce"],
            ["wkt_pinch", 0.004, [800.0, 600.0]], ["wkt_pinch", 0.5, [0.0, 0.0]], ["wkt_pinch", 1e-6, [3.0, -2.0]],
            ["raster_iso", [5, 4, 15, 0, 40], "square"], ["raster_iso", [5, 4, 15, 0, 40], "diamond"], ["raster_iso", [5, 4, 15, 0, 40], "two"]]
-    light = [["gm", 2, True], ["gm", 6, True], ["gm", 3, False], ["frame"], ["hold"], ["release"]]
+    light = [["gm", 2, True], ["gm", 6, True], ["gm", 3, False], ["frame"], ["hold"], ["release"], ["rmcell", 0], ["rmcell", -1]]
     spec = [5, 4, 15, 0, 40]
     corners = [["raster_corner", spec, i] for i in range(n_staircase_corners(spec))]
     if tier == "quick":
